@@ -396,6 +396,10 @@ def build_unit(template_path, repo):
             continue
         if s.startswith("//@harness"):
             pending_h = _parse_directive(s)
+            if "name" in pending_h:      # macro-generated harness: name given explicitly
+                pending_h["props"] = pending_h.get("props", "").split(",")
+                ub.harnesses.append(pending_h)
+                pending_h = None
         elif pending_h is not None:
             m = re.match(r"\s*(?:pub\s+)?fn\s+([A-Za-z0-9_]+)", ln)
             if m:
